@@ -415,6 +415,69 @@ def raise_after_write(repo, res):
             w = _RAW(fn, eff, {"out"}, RAISERS, (), ())
             w.run(fn.body, [0])
             res.check(not w.violations, f"helper:{name}", fn.where(), f"{name}: validation after write", found=[norm(v[0])[:60] for v in w.violations], rid=r2)
+    # relabel last (handlers): NumPy's implementation can refuse the call (shape / casting of out, index out of
+    # bounds, ...) and then leaves out's numbers alone - so the unit of out is assigned only after that call, on every
+    # path, whether the store is written in the handler or in a helper the out array is handed to
+    afm = repo.mod(AF)
+    labelers = {}
+    for q, fns in afm.funcs.items():
+        if "." in q:
+            continue
+        for f in fns:
+            for n in walk_no_nested(f.node):
+                if isinstance(n, ast.Assign):
+                    for t in n.targets:
+                        if isinstance(t, ast.Attribute) and t.attr == "units" and isinstance(t.value, ast.Name) and t.value.id in f.params:
+                            labelers.setdefault(q, set()).add(f.params.index(t.value.id))
+    n_label_sites = 0
+    todo = [(f"handler:{h.key}", h.fn) for h in inventory(repo) if "out" in h.fn.params]
+    todo += [(f"helper:{name}", fn) for name in ("product_helper", "clip_impl") for fn in helpers.get(name, [])]
+    done = set()
+    for key, fn in todo:
+        if id(fn) in done:
+            continue
+        done.add(id(fn))
+        eff = Effects(fn)
+
+        def labels(node, _eff=eff, _fn=fn):
+            out_ = []
+            for n in ast.walk(node):
+                if isinstance(n, ast.Assign):
+                    for t in n.targets:
+                        if isinstance(t, ast.Attribute) and t.attr == "units" and "out" in {a.split(".")[0] for a in _eff.alias_of(t.value)}:
+                            out_.append(n)
+                if isinstance(n, ast.Call) and isinstance(n.func, ast.Name) and n.func.id in labelers and n.func.id != _fn.name:
+                    f2 = afm.funcs[n.func.id][0]
+                    for i in labelers[n.func.id]:
+                        arg = n.args[i] if i < len(n.args) else next((k.value for k in n.keywords if k.arg == f2.params[i]), None)
+                        if arg is not None and "out" in {a.split(".")[0] for a in _eff.alias_of(arg)}:
+                            out_.append(n)
+            return out_
+
+        def impl_calls(node):
+            return [c for c in ast.walk(node) if isinstance(c, ast.Call) and isinstance(c.func, ast.Attribute) and c.func.attr == "_implementation"]
+
+        early = None
+        has_label = False
+        for pth in enum_paths(fn.body, limit=20000):
+            labelled = None
+            for ev in pth:
+                node = ev[1] if ev[0] in ("stmt", "cond", "return", "raise") and len(ev) > 1 and isinstance(ev[1], ast.AST) else None
+                if node is None:
+                    continue
+                ls = labels(node)
+                ic = impl_calls(node)
+                if ic and (labelled is not None or ls):
+                    early = early or (node, labelled if labelled is not None else ls[0])
+                if ls:
+                    has_label = True
+                    labelled = labelled if labelled is not None else ls[0]
+        if not has_label:
+            continue
+        n_label_sites += 1
+        res.check(early is None, f"{key}:relabel-last", fn.where(early[0]) if early else fn.where(), f"{fn.name}: the out= array is given the result's unit before NumPy's implementation has run: when NumPy refuses the call (wrong shape or dtype of out, index out of bounds) out keeps its old numbers under the new unit", "out.units assigned after the NumPy call on every path", norm(early[1])[:100] if early else "", rid=r2)
+    if n_label_sites < 6:
+        raise AnalysisError(f"{AF}: only {n_label_sites} handlers that label an out= array were found (8 confirmed by hand)")
 
 
 def inplace_twin(repo, res):
@@ -456,6 +519,9 @@ def inplace_twin(repo, res):
 
 
 MUTANTS = [
+    Mutant("around-relabels-out-first", AF, "around", "    res = np.around._implementation(\n        np.asarray(a), decimals=decimals, out=np.asarray(out)\n    )\n    if getattr(out, \"units\", None) is not None:\n        out.units = ret_units\n", "    if getattr(out, \"units\", None) is not None:\n        out.units = ret_units\n    res = np.around._implementation(\n        np.asarray(a), decimals=decimals, out=np.asarray(out)\n    )\n", ("C18-R2",)),
+    Mutant("product-helper-relabels-out-first", AF, "product_helper", "    res = func._implementation(np.asarray(a), np.asarray(b), out=np.asarray(out))\n    if getattr(out, \"units\", None) is not None:\n        out.units = prod_units\n", "    if getattr(out, \"units\", None) is not None:\n        out.units = prod_units\n    res = func._implementation(np.asarray(a), np.asarray(b), out=np.asarray(out))\n", ("C18-R2",)),
+    Mutant("twin-around-relabel-hasattr", AF, "around", "    if getattr(out, \"units\", None) is not None:\n        out.units = ret_units\n    return unyt_array(res, ret_units, bypass_validation=True)", "    if hasattr(out, \"units\"):\n        out.units = ret_units\n    return unyt_array(res, ret_units, bypass_validation=True)", (), benign=True),
     Mutant("ufunc-out-retype-without-writeable-test", ARR, "unyt_array.__array_ufunc__", "                    if not out.flags.writeable:\n                        # refuse before the buffer is re-typed below\n                        raise ValueError(\"output array is read-only\")\n", "", ("C18-R2",)),
     Mutant("retype-without-writeable-test", ARR, "unyt_array.convert_to_units", "                if not values.flags.writeable:\n                    # refuse before the buffer is re-typed below\n                    raise ValueError(\"assignment destination is read-only\")\n", "", ("C18-R2",)),
     Mutant("result-class-looked-up-after-evaluation", ARR, "unyt_array.__array_ufunc__", "            ret_class = _get_binary_op_return_class(type(i0), type(i1))\n", "", ("C18-R2",), more=[(ARR, "unyt_array.__array_ufunc__", "            if unit_operator in (_multiply_units, _divide_units):\n                if unit.is_dimensionless and unit.base_value != 1.0:", "            ret_class = _get_binary_op_return_class(type(i0), type(i1))\n            if unit_operator in (_multiply_units, _divide_units):\n                if unit.is_dimensionless and unit.base_value != 1.0:", 1)]),
